@@ -564,7 +564,7 @@ theorem builtin_back (g : PGrammar) (uni : Uni) (name : String) (inh : Bool) (i 
 
 /-! ### the main induction -/
 
-theorem back_step {g : PGrammar} {uni : Uni} (hws : SkipRulesAtomic g) (k : Nat)
+theorem back_step {g : PGrammar} {uni : Uni} (hws : SkipRulesAtomicLike g) (k : Nat)
     (hB : ∀ m, m ≤ k → Back g uni m) : Back g uni (k+1) := by
   intro inh sk na e i S trk hsk hne
   have hBk := hB k (Nat.le_refl _)
@@ -594,14 +594,13 @@ theorem back_step {g : PGrammar} {uni : Uni} (hws : SkipRulesAtomic g) (k : Nat)
     | some r0 =>
       obtain ⟨r, hr, hrn⟩ := indexOf_spec hidx
       simp only [genExpr, hidx] at hne ⊢
-      have hmem : r ∈ g := List.mem_of_getElem? hr
-      have hflag := flag_invariant hws hmem na
-      rw [hrn] at hflag
       have hrule : (gen g).rule? (r0+1) = some (genRule g r) := by rw [gen_rule_succ, hr]; rfl
       refine ref_back (gen g) uni (r0+1) sk (genRule g r) hrule inh i S trk k _ (fun trk' hne' => ?_) hne
       rw [hsk] at hne' ⊢
-      have := hBk na (atomFlag (kindAtomicity r.kind)) _ r.expr i S trk' hflag hne'
-      exact this.shift (fun n => by simp only [spec, find?_of_indexOf hidx, hr])
+      have := hBk na (atomFlag (kindAtomicity r.kind)) _ r.expr i S trk' rfl hne'
+      exact this.shift (fun n => by
+        simp only [spec, find?_of_indexOf hidx, hr]
+        exact spec_body_flag hws hidx hr uni n na i S)
   | peekSlice a b =>
     simp only [genExpr] at hne ⊢
     refine EvS.leaf (fun j => ?_)
@@ -808,7 +807,7 @@ theorem back_step {g : PGrammar} {uni : Uni} (hws : SkipRulesAtomic g) (k : Nat)
     exact (ih hne).shift (fun n => by simp only [spec])
 
 /-- Backward simulation for every typed fuel. -/
-theorem back_all {g : PGrammar} {uni : Uni} (hws : SkipRulesAtomic g) : ∀ k, Back g uni k := by
+theorem back_all {g : PGrammar} {uni : Uni} (hws : SkipRulesAtomicLike g) : ∀ k, Back g uni k := by
   intro k
   induction k using Nat.strongRecOn with
   | _ k ih =>
